@@ -5,14 +5,16 @@ from lzcommon import (LZCheckMixin, PropertyCheck, Case, Bad, compress_inputs, p
 
 class C08(LZCheckMixin, PropertyCheck):
     pid = "C08"
+    source_tables = ["LZ10_CONSTS", "LZ_DECODE_CONSTS"]   # tables / constants regenerated from /repo's source (gen/srctables.py)
     release_too = True
     rule = ("streams: all strings over 2 and 3 letters up to a length bound; every length of a run / period-2 / period-19 input; "
             "long runs around 4096; structured random inputs (runs, periods around the window edge, Thue-Morse, Fibonacci, incompressible, "
             "length-form boundaries, blocks repeated at distance 4093..4099, self-copying, near-periodic) <= 6 KiB against the extracted model "
-            "and larger ones (quick <= 64 KiB, thorough <= 1 MiB) against the oracle only. Non-trivial = the emitted stream contains a "
+            "and larger ones (quick <= 64 KiB, thorough <= 1 MiB; repeats of 65536..140000 bytes) against the oracle only; a slice of the family through "
+            "the enum CompressionFormat. Non-trivial = the emitted stream contains a "
             "back-reference; distinct = distinct input.")
     assumptions = ["A-std: Vec, slices and integer casts behave as documented",
-                   "index safety of get_occurrence_length / the emission buffer is read off the source, not proved (the correspondence would show a panic)"]
+                   "machine-level model (C08_compress_succeeds): out_buffer's filled prefix as a list, i32 token-byte expressions without overflow checks (values <= 0x1000)"]
 
     def generate(self, rng, tier):
         return compress_inputs(rng, tier, "lz10c", lambda n: "1")
@@ -56,7 +58,7 @@ TB = ("Trusted: Coq 8.16.1 kernel (vm_compute, no native_compute), no axioms (Pr
       "ExtrOcamlBasic extraction + hand-written OCaml driver, the Rust harness and Python generators/oracles. ")
 
 MANIFEST = dict(
-    text="(filled in below)",
-    note=TB,
-    technique="Coq proof (induction on the greedy loop, parser/encoder inversion, decoder simulation) + extracted-model differential check + independent Python stream parser as oracle",
-    ref="DESIGN.md section 4 (C08)")
+    text="Theorems (Coq 8.16, closed under the global context) about executable Gallina models of LZ10CompressionFormat::compress (get_occurrence_length, the greedy loop with window min(pos,0x1000) and look-ahead 0x12, the flag/token emission loop, header and token bytes with the shift/mask expressions of src/lz10.rs) and of the library's decoder (lz13::decompress_lz as it is after the repair of F14): for EVERY byte string shorter than 2^24 the output is accepted completely by a strict LZ10 parser written from the format description (type 0x10, 24-bit LE size = input length, flag groups of eight tokens MSB first, references of length 3-18 and displacement 1-4096 reaching only into produced data, exact size, no byte left over) and its tokens expand to the input; the library's decompressor returns the input in the checked and the wrapping profile, also through the enum CompressionFormat; the greedy token sequence expands to the input for every input (overlapping copies included). 'Compression succeeds' is a theorem too: a machine-level model of get_occurrence_length and of the loop of lz10.rs (checked slice indexing, usize arithmetic in a profile, the 17-byte out_buffer array) returns Ok of exactly the list model's output for every input shorter than 2^63 bytes in either profile. The models are tied to /repo on every run: extracted model vs real library byte-for-byte on bounded-exhaustive small alphabets, every run/period length 0..300 (thorough 700), structured inputs <= 6 KiB, both build profiles; larger inputs (quick 64 KiB + repeats up to 140000 bytes, thorough 1 MiB) implementation + oracle only; an independent Python strict parser/expander judges every implementation output.",
+    note=TB + 'Modelled, not verified (A-std): Vec, slices, integer casts, 64-bit usize. In the machine-level model the filled prefix of out_buffer is a list and the i32 token-byte expressions are evaluated without overflow checks (values <= 0x1000). Nothing is claimed for inputs of 16 MiB and more (the 24-bit size is truncated there). notes/lz.md lists 7 mutations of /repo, all reported by the quick check.',
+    technique='Coq proof (induction on the greedy loop, parser/encoder inversion, decoder simulation) + extracted-model differential check + independent Python stream parser as oracle',
+    ref='DESIGN.md section 4 (C08); notes/lz.md')
